@@ -272,7 +272,7 @@ def r3(ctx):
         ok = bool(chk) and all(g.escape(wn.id, [c.id for c in chk], kinds=NORMAL) is None for _ in [0])
         raises = False
         for c in chk:
-            tsucc = [b for b, k in g.succ[c.id] if k == "t"]
+            tsucc = g.real_succ(c.id, "t")
             raises = raises or any(g.nodes[b].kind == "raise_stmt" or (g.exit not in g.reach([b], include_src=True)) for b in tsucc)
         ctx.ob("R3", "_deploy: a waiter re-checks deployments_map after the wait and raises when absent", ok and raises,
                func=f, node=wn.ast, instance="_deploy:waiter",
@@ -283,7 +283,7 @@ def r3(ctx):
         isinstance(c.func, ast.Attribute) and c.func.attr == "wait" for c in n.calls())]
     chk = [n for n in g.nodes.values() if n.kind == "test" and "self._connector is None" in n.text()]
     ok = bool(waits) and bool(chk) and g.escape(waits[0].id, [c.id for c in chk]) is None
-    raises = any(g.nodes[b].kind == "raise_stmt" for c in chk for b, k in g.succ[c.id] if k == "t")
+    raises = any(g.nodes[b].kind == "raise_stmt" for c in chk for b in g.real_succ(c.id, "t"))
     ctx.ob("R3", "_safe_deploy_event_wait raises when the connector is missing after the wait", ok and raises,
            func=f, node=f.node, instance="future:waiter")
     # failure path of FutureConnector.deploy leaves _connector None
